@@ -46,6 +46,25 @@
 (* by the producer, mv = the member is in moved-from state.  Only the C++   *)
 (* move operations of the whole object leave their source moved-from; no    *)
 (* read (operator X(), operator const X() const, await_resume) changes it.  *)
+(*                                                                          *)
+(* The operations that make coroutines ready by giving the object up        *)
+(* (clear(), destruction, the scope exit at the end of a history, the       *)
+(* function run by create_suspend_point) carry the CONTEXT of control flow  *)
+(* they are executed in (Ctxs):                                             *)
+(*   "flow"   ordinary control flow;                                        *)
+(*   "unwind" the object is an automatic object of a scope which is left by *)
+(*            an exception (thrown after the object was filled, caught      *)
+(*            outside): its destructor is run by the stack unwinding;       *)
+(*   "dtor"   the operation is executed by the destructor of ANOTHER object *)
+(*            (a scope guard, an owner) which is run by the stack unwinding;*)
+(*   "catch"  the operation is executed inside a handler, while the caught  *)
+(*            exception is being handled.                                   *)
+(* The context is a parameter only: "plain destruction" resumes (queues in  *)
+(* coroutine mode) every coroutine the object holds, whatever made control  *)
+(* leave the scope, so every context has the same successor state and       *)
+(* Conservation / NoDoubleResume are demanded of all of them.  In coroutine *)
+(* mode what was queued is resumed when the frame that installed the queue  *)
+(* is left - normally or by the exception (trailer, coro_queue.h:105-108).  *)
 (***************************************************************************)
 EXTENDS Naturals, Sequences, FiniteSets, TLC
 
@@ -56,9 +75,14 @@ CONSTANTS MaxObj,    \* object slots
           Typed,     \* TRUE: suspend_point<int> objects take part
           Ops,       \* names of the operations that take part (bias of a configuration)
           Fixed,     \* TRUE: /repo 283e427 (own handle picked by pop() is not queued again)
-          Targets    \* handle counts AddTo may fill an object up to (bias to the capacity boundaries)
+          Targets,   \* handle counts AddTo may fill an object up to (bias to the capacity boundaries)
+          Ctxs       \* control-flow contexts in which clear() / destruction / scope exit take part
 
 InlineCap == 3       \* suspend_point<void>::inline_count, suspend_point.h:42
+
+AllCtxs == {"flow", "unwind", "dtor", "catch"}
+ASSUME Ctxs \subseteq AllCtxs /\ "flow" \in Ctxs
+CallCtxs == Ctxs \ {"unwind"}      \* a member function call is not something the unwinding executes by itself
 
 Slots == 1..MaxObj
 Handles == 1..MaxH
@@ -312,18 +336,22 @@ Emit(hs) ==
       THEN /\ queue' = queue \o hs /\ burst' = <<>> /\ UNCHANGED resumed
       ELSE /\ burst' = hs /\ resumed' = Bump(resumed, hs) /\ UNCHANGED queue
 
-(* clear() :108 / suspend_now() *)
-Clear(i) ==
-    /\ Tick("Clear") /\ sp[i].live /\ MayEmit(sp[i].h)
+(* clear() :108 / suspend_now() :130, called in context c: "dtor" = by a scope guard's destructor while
+   an exception unwinds the scope, "catch" = inside a handler *)
+Clear(i, c) ==
+    /\ Tick("Clear") /\ sp[i].live /\ MayEmit(sp[i].h) /\ c \in CallCtxs
     /\ Emit(sp[i].h)
     /\ sp' = [sp EXCEPT ![i] = Cleared(sp[i])]
     /\ blocks' = blocks - B2N(sp[i].heap)
     /\ NoRet /\ NoAlloc /\ Quiet
     /\ UNCHANGED <<nextH, mode>>
 
-(* ~suspend_point() :97-99 (also with _count_flag = 1) *)
-Destroy(i) ==
-    /\ Tick("Destroy") /\ sp[i].live /\ MayEmit(sp[i].h)
+(* ~suspend_point() :97-99 (also with _count_flag = 1) in context c: explicitly / as the temporary of a
+   discarded return value ("flow", and the same from a guard's destructor during unwinding "dtor" or
+   inside a handler "catch"), or as an automatic object of a scope left by an exception ("unwind").
+   "Destructor always resumes all remaining coroutines" (:96) *)
+Destroy(i, c) ==
+    /\ Tick("Destroy") /\ sp[i].live /\ MayEmit(sp[i].h) /\ c \in Ctxs
     /\ Emit(sp[i].h)
     /\ sp' = [sp EXCEPT ![i] = Dead]
     /\ blocks' = blocks - B2N(sp[i].heap)
@@ -396,11 +424,16 @@ ParResume(i) ==
    collected: in coroutine mode what fn queued stays queued behind the older entries; outside
    coroutine mode the queue was installed just for the call and is flushed while the exception
    unwinds.  The exception reaches the caller (ret = Thrown).  Not generated: a throwing fn that
-   readies the own handle outside coroutine mode (the running driver would be resumed). *)
+   readies the own handle outside coroutine mode (the running driver would be resumed).
+   c = the context in which fn gives object j up (a queue is installed by then in both modes, :325/:341):
+   "flow" before it returns / throws; "unwind" fn holds the handles in an automatic object when it throws;
+   "dtor" a scope guard of fn clear()s the object when fn throws; "catch" fn handles an exception of its
+   own, gives the object up inside the handler and then returns or throws out of the handler. *)
 Thrown == MaxH + 2
 Reverse(s) == [n \in 1..Len(s) |-> s[Len(s) + 1 - n]]
-CreateSP(k, j, thr, t) ==
+CreateSP(k, j, thr, t, c) ==
     /\ Tick("CreateSP") /\ IsFree(k) /\ (j # 0 => sp[j].live)
+    /\ c \in Ctxs /\ (c # "flow" => j # 0) /\ (c \in {"unwind", "dtor"} => thr)
     /\ LET A == IF j = 0 THEN <<>> ELSE sp[j].h
            src == IF j = 0 THEN sp ELSE [sp EXCEPT ![j] = Cleared(sp[j])]
            freed == IF j = 0 THEN 0 ELSE B2N(sp[j].heap)
@@ -444,10 +477,15 @@ Yield ==
    the objects still alive are destroyed from outside in slot order (each like Destroy) and
    whatever that queued is flushed; the queue is uninstalled (:105-108).  If the own handle is still
    around (in the queue or in an object) the suspended driver is resumed through it - once.
+   c = what ends the scope that owns the objects and the queue: "flow" control reaches its end; "unwind"
+   an exception thrown in it and caught outside (the objects are automatic objects of the scope, the
+   exception also leaves the frame that installed the queue: the trailer :105-108 drains it on that
+   path too); "dtor" the same exception, the objects are destroyed by their owner's destructor; "catch"
+   they are destroyed inside a handler.
    Always enabled: every history can be closed. *)
 Leftover == LET S[k \in 0..MaxObj] == IF k = 0 THEN <<>> ELSE S[k - 1] \o sp[k].h IN S[MaxObj]
-Finish ==
-    /\ ~done
+Finish(c) ==
+    /\ ~done /\ c \in Ctxs
     /\ burst' = NoSelf(queue \o Leftover)     \* normal mode: queue = <<>>, resumed by the destructors
     /\ resumed' = Bump(resumed, burst')
     /\ dres' = selfReady /\ selfReady' = 0
@@ -463,16 +501,17 @@ Kinds == {"same", "void", "int"}
 
 Next == \/ \E k \in Slots, t \in Types : ConstructEmpty(k, t) \/ ConstructH(k, t) \/ ConstructSelf(k, t)
         \/ \E k \in Slots, i \in Slots, kind \in Kinds : MoveConstruct(k, i, kind)
-        \/ \E i \in Slots : AddHandle(i) \/ AddSelf(i) \/ Pop(i) \/ Clear(i) \/ Destroy(i) \/ CoAwait(i)
+        \/ \E i \in Slots : AddHandle(i) \/ AddSelf(i) \/ Pop(i) \/ CoAwait(i)
+        \/ \E i \in Slots, c \in AllCtxs : Clear(i, c) \/ Destroy(i, c)
         \/ \E i \in Slots, kind \in ReadKinds : Read(i, kind)
         \/ \E i \in Slots : ParResume(i)
-        \/ \E k \in Slots, j \in 0..MaxObj, thr \in BOOLEAN, t \in Types : CreateSP(k, j, thr, t)
+        \/ \E k \in Slots, j \in 0..MaxObj, thr \in BOOLEAN, t \in Types, c \in AllCtxs : CreateSP(k, j, thr, t, c)
         \/ \E i \in Slots, n \in 1..MaxH : AddFill(i, n)
         \/ \E i \in Slots, n \in Targets : AddTo(i, n)
         \/ \E i \in Slots, j \in Slots : MergeShl(i, j) \/ MoveAssign(i, j)
         \/ Pause
         \/ Yield
-        \/ Finish
+        \/ \E c \in AllCtxs : Finish(c)
 
 Spec == Init /\ [][Next]_vars
 
